@@ -19,7 +19,7 @@ import os
 import random
 import shutil
 
-from .. import cbi, core, runner, scen, trace_preproc
+from .. import cbi, core, render, runner, scen, trace_preproc
 from . import C04, C10
 
 
@@ -114,7 +114,8 @@ def replay_chunk(args):
             for plat, ents in byp.items():
                 direct[plat] = []
                 for e in ents:
-                    defs = ["X"] if e["x"] != "U" else []
+                    defs = (["X"] if e["x"] != "U" else []) + \
+                           (["HDR=" + render.val_text(e["hdr"])] if e.get("hdr", "U") != "U" else [])
                     # (-include is looked up beside the main file as spelled - C04's recorded finding - so
                     # entries with forced includes keep the canonical spelling of their file here)
                     direct[plat].append(cbi.entry(m.paths[e["file"]] if e["forced"] else spell_file(e["file"]), defs,
